@@ -85,55 +85,41 @@ SHARED_NAMES = ('_wsdl', 'wsdl11', '_mtx_build_interface_document', 'get_interfa
 
 
 class SkelExtractor:
-    """handle_wsdl_request -> flat instruction list over {cache=self._wsdl, pub=wsdl11.__wsdl, lock}.
-    Registers: w = ctx.transport.wsdl, t = any local name holding a document."""
+    """handle_wsdl_request -> flat instruction list over {cache=self._wsdl, pub=wsdl11.__wsdl, lock}, in a NORMAL
+    FORM that does not depend on how the code is cut into methods, statements and local names:
+
+    * calls of methods of the same class that touch the tracked names are inlined (also name-mangled private ones):
+      tail delegation (`return wrapper(self.helper(..))`) and value calls (`x = self.helper(..)`), whose return
+      sites continue in the caller with `x` known (a document / None / an error body) — tests on `x` are decided
+      statically per return site;
+    * registers: w = ctx.transport.wsdl, t = any local name holding a document (names do not matter);
+    * try / except / else / finally and `with <mutex>:` become tryEnter/tryLeave with the finally body emitted once
+      per exit; `try: with <mutex>: B  except ..` is read as `try: acquire; B  except ..  finally: release`;
+    * afterwards: jumps to jumps are threaded, a jump to a terminal instruction becomes that instruction, jumps to
+      the next instruction and unreachable code are dropped, `mov x y; respond x` = `respond y`, a thread-private
+      `mov` is ordered before an adjacent independent `storeCache`.
+
+    The statements are processed in continuation-passing style: `k()` emits whatever follows."""
+
+    TERMINAL = ('respond', 'respondErr', 'reraise')
 
     def __init__(self, klass):
         self.klass = klass
-        self.ins = []          # [op, args..., marker] with symbolic labels
-        self.labels = {}
+        self.ins = []          # [op, args, marker]; jump args are symbolic labels
+        self.labels = {}       # label -> index into self.ins
         self.nlab = 0
         self.docnames = set()
+        self.consts = {}       # local name -> 'none' | 'err' | 'other'  (known non-document value)
         self.notes = []
         self.codes = {}        # code object -> statement map, for every function the skeleton comes from
         self.cur = None
         self.visited = set()
-        self.inlined = False
         self.fin = []          # enclosing `finally` bodies (innermost last); 'release' = exit of `with <mutex>:`
         self.in_handler = 0
         self.path = 'normal'   # which copy of a finally body is being emitted: normal exit / exit through a handler
+        self.frames = []       # inlined value calls in progress
 
-    def func(self, f):
-        """extract the body of a method (the entry point, or a helper method it delegates to)"""
-        fd, code = fn_ast(f)
-        self.codes[code] = stmt_map(fd)
-        self.visited.add(code)
-        old, self.cur = self.cur, code
-        self.block(fd.body)
-        self.cur = old
-
-    def helper_call(self, s):
-        """`self.<m>(...)` inside a simple statement, where <m> is a method of the class that touches the
-        shared names: the handler delegates to it"""
-        if isinstance(s, (ast.If, ast.For, ast.While, ast.With, ast.Try)):
-            return None
-        for n in ast.walk(s):
-            if isinstance(n, ast.Call) and isinstance(n.func, ast.Attribute) and isinstance(n.func.value, ast.Name) \
-                    and n.func.value.id == 'self':
-                name = n.func.attr
-                m = getattr(self.klass, name, None) or getattr(self.klass, '_%s%s' % (self.klass.__name__.lstrip('_'), name), None)
-                f = _func(m) if m is not None else None
-                if f is None or not hasattr(f, '__code__') or f.__code__ in self.visited:
-                    continue
-                try:
-                    src = inspect.getsource(f)
-                except (OSError, TypeError):
-                    continue
-                if any(x in src for x in ('_wsdl', '_mtx_build_interface_document')):
-                    return f
-        return None
-
-    # -- classification of expressions
+    # ------------------------------------------------------------------ helpers
     def cls(self, e):
         if isinstance(e, ast.Attribute) and e.attr == '_wsdl' and isinstance(e.value, ast.Name) and e.value.id == 'self':
             return ('cache',)
@@ -160,125 +146,228 @@ class SkelExtractor:
     def place(self, lab):
         self.labels[lab] = len(self.ins)
 
-    # -- statements
-    def block(self, stmts):
-        for s in stmts:
-            self.stmt(s)
+    def is_mutex(self, node):
+        return '_mtx_build_interface_document' in seg(node)
 
-    def stmt(self, s):
-        h = self.helper_call(s)
+    def helper_of(self, s):
+        """(function, call node) if the simple statement `s` calls a method of the class that touches the tracked names"""
+        if isinstance(s, (ast.If, ast.For, ast.While, ast.With, ast.Try)):
+            return None
+        for n in ast.walk(s):
+            if isinstance(n, ast.Call) and isinstance(n.func, ast.Attribute) and isinstance(n.func.value, ast.Name) \
+                    and n.func.value.id == 'self':
+                name = n.func.attr
+                m = getattr(self.klass, name, None) or \
+                    getattr(self.klass, '_%s%s' % (self.klass.__name__.lstrip('_'), name), None)
+                f = _func(m) if m is not None else None
+                if f is None or not hasattr(f, '__code__') or f.__code__ in self.visited:
+                    continue
+                try:
+                    src = inspect.getsource(f)
+                except (OSError, TypeError):
+                    continue
+                if any(x in src for x in ('_wsdl', '_mtx_build_interface_document')):
+                    return f, n
+        return None
+
+    # ------------------------------------------------------------------ functions
+    def func(self, f, k=None):
+        fd, code = fn_ast(f)
+        self.codes[code] = stmt_map(fd)
+        self.visited.add(code)
+        old, self.cur = self.cur, code
+
+        def done():
+            self.cur = old
+            if k is not None:
+                k()
+        self.block(fd.body, done)
+        self.cur = old
+
+    def block(self, stmts, k):
+        if not stmts:
+            return k()
+        self.stmt(stmts[0], lambda: self.block(stmts[1:], k))
+
+    # ------------------------------------------------------------------ statements
+    def stmt(self, s, k):
+        if s == 'acquire':
+            self.emit('acquire', marker=('lock', 'acquire'))
+            return k()
+        h = self.helper_of(s)
         if h is not None:
-            if self.inlined:
-                self.notes.append('second delegation at line %d' % s.lineno)
-                return self.emit('opaque')
-            self.func(h)
-            self.inlined = True
-            return
+            return self.call_helper(s, h[0], h[1], k)
         if isinstance(s, ast.If):
-            return self.if_(s)
+            return self.if_(s, k)
         if isinstance(s, ast.Assign):
-            return self.assign(s)
+            self.assign(s)
+            return k()
         if isinstance(s, ast.Try):
-            return self.try_(s.body, s.orelse, s.handlers, s.finalbody, s.lineno)
+            body, handlers, orelse, finalbody = s.body, s.handlers, s.orelse, s.finalbody
+            if len(body) == 1 and isinstance(body[0], ast.With) and not finalbody and not orelse and \
+                    any(self.is_mutex(i.context_expr) for i in body[0].items):
+                # try: with <mutex>: B  except ..   ==   try: acquire; B  except ..  finally: release
+                return self.try_(['acquire'] + body[0].body, [], handlers, 'release', s.lineno, k)
+            return self.try_(body, orelse, handlers, finalbody, s.lineno, k)
         if isinstance(s, ast.With):
-            locks = [i for i in s.items if '_mtx_build_interface_document' in seg(i.context_expr)]
-            if locks:
-                # `with lock:` = acquire; try: body; finally: release
+            if any(self.is_mutex(i.context_expr) for i in s.items):
                 self.emit('acquire', marker=('lock', 'acquire'))
-                self.try_(s.body, [], [], 'release', s.lineno)
-            else:
-                self.block(s.body)
-            return
+                return self.try_(s.body, [], [], 'release', s.lineno, k)
+            return self.block(s.body, k)
         if isinstance(s, ast.Raise):
-            self.finals()
+            self.finals(0)
             return self.emit('reraise')
         if isinstance(s, ast.Expr) and isinstance(s.value, ast.Call) and isinstance(s.value.func, ast.Attribute):
             a = s.value.func.attr
-            if a == 'acquire' and '_mtx_build_interface_document' in seg(s.value.func.value):
-                return self.emit('acquire', marker=('lock', 'acquire'))
-            if a == 'release' and '_mtx_build_interface_document' in seg(s.value.func.value):
-                return self.emit('release', marker=('lock', 'release', self.path))
+            if a == 'acquire' and self.is_mutex(s.value.func.value):
+                self.emit('acquire', marker=('lock', 'acquire'))
+                return k()
+            if a == 'release' and self.is_mutex(s.value.func.value):
+                self.emit('release', marker=('lock', 'release', self.path))
+                return k()
             if a == 'build_interface_document':
                 self.emit('buildBegin', marker=('call', 'build_interface_document'))
                 self.emit('buildPorts', marker=('call', '_get_or_create_'))
                 self.emit('buildPublish', marker=('publish',))
-                return
+                return k()
         if isinstance(s, ast.Return):
-            v = s.value
-            if isinstance(v, (ast.List, ast.Tuple)) and len(v.elts) == 1:
-                v = v.elts[0]
-            c = self.cls(v) if v is not None else None
-            if c and c[0] == 'cache':
-                self.emit('loadCache', 't', marker=('line', self.cur, s.lineno))
-                c = ('reg', 't')
-            self.finals()              # every enclosing `finally` runs before the function returns
-            if c and c[0] == 'reg':
-                return self.emit('respond', c[1])
-            if self.in_handler:
-                return self.emit('respondErr')
-            self.notes.append('return of a non-document at line %d' % s.lineno)
-            return self.emit('opaque')
-        if self.touches(s):
+            return self.return_(s)
+        if isinstance(s, ast.stmt) and self.touches(s):
             self.notes.append('unmodelled statement touching shared names at line %d: %s' % (s.lineno, seg(s)[:80]))
             self.emit('opaque')
+        return k()
+
+    def value_class(self, v):
+        """('doc', reg) | ('none',) | ('err',) | ('other',) for a returned / assigned expression"""
+        if v is None or (isinstance(v, ast.Constant) and v.value is None):
+            return ('none',)
+        if isinstance(v, (ast.List, ast.Tuple)) and len(v.elts) == 1:
+            inner = self.value_class(v.elts[0])
+            if inner[0] == 'doc':
+                return inner
+        c = self.cls(v)
+        if c and c[0] == 'reg':
+            return ('doc', c[1])
+        if c and c[0] == 'cache':
+            return ('doc-cache',)
+        if isinstance(v, ast.Name) and v.id in self.consts:
+            return (self.consts[v.id],)
+        return ('err',) if self.in_handler else ('other',)
+
+    def return_(self, s):
+        vc = self.value_class(s.value)
+        if vc[0] == 'doc-cache':
+            self.emit('loadCache', 't', marker=('line', self.cur, s.lineno))
+            vc = ('doc', 't')
+        if self.frames:
+            # return out of an inlined value call: only the helper's own finally bodies run
+            fr = self.frames[-1]
+            self.finals(fr['fin_base'])
+            if vc[0] == 'doc':
+                if vc[1] != 't':
+                    self.emit('mov', 't', vc[1])
+                key = 'doc'
+            else:
+                key = vc[0]
+            lab = fr['sites'].setdefault(key, self.new_label())
+            return self.emit('jmp', lab)
+        self.finals(0)
+        if vc[0] == 'doc':
+            return self.emit('respond', vc[1])
+        if vc[0] == 'err':
+            return self.emit('respondErr')
+        self.notes.append('return of a non-document at line %d' % s.lineno)
+        return self.emit('opaque')
+
+    def call_helper(self, s, f, call, k):
+        if isinstance(s, ast.Return):
+            # tail delegation: the helper's returns are this function's returns
+            self.func(f, lambda: self.return_(ast.Return(value=None, lineno=s.lineno)))
+            return
+        target = None
+        if isinstance(s, ast.Assign) and len(s.targets) == 1 and isinstance(s.targets[0], ast.Name) and s.value is call:
+            target = s.targets[0].id
+        elif not (isinstance(s, ast.Expr) and s.value is call):
+            self.notes.append('helper call in an unmodelled position at line %d' % s.lineno)
+            self.emit('opaque')
+            return k()
+        fr = {'sites': {}, 'fin_base': len(self.fin)}
+        self.frames.append(fr)
+        outer = (self.in_handler, self.path)
+        self.func(f, lambda: self.return_(ast.Return(value=None, lineno=s.lineno)))     # falling off the end = return None
+        self.frames.pop()
+        for key, lab in fr['sites'].items():
+            self.place(lab)
+            self.in_handler, self.path = outer
+            saved = (set(self.docnames), dict(self.consts))
+            if target is not None:
+                self.docnames.discard(target)
+                self.consts.pop(target, None)
+                if key == 'doc':
+                    self.docnames.add(target)
+                else:
+                    self.consts[target] = key
+            k()
+            self.docnames, self.consts = saved
 
     def final(self, fb):
         if fb == 'release':
             self.emit('release', marker=('lock', 'release', self.path))
         else:
-            self.block(fb)
+            self.block(fb, lambda: None)
 
-    def finals(self):
-        """the enclosing finally bodies, innermost first (executed by a return / raise)"""
+    def finals(self, base):
+        """the enclosing finally bodies above `base`, innermost first (executed by a return / raise)"""
         saved = self.fin
-        for k in range(len(saved) - 1, -1, -1):
-            self.fin = saved[:k]
-            self.final(saved[k])
+        for i in range(len(saved) - 1, base - 1, -1):
+            self.fin = saved[:i]
+            self.final(saved[i])
         self.fin = saved
 
-    def try_(self, body, orelse, handlers, finalbody, lineno):
-        """try / except / else / finally.  The finally body is emitted once per exit: after the normal exit and
-        after the exit through the (one) handler; an exception without handler re-raises after it."""
+    def try_(self, body, orelse, handlers, finalbody, lineno, k):
         h, end = self.new_label(), self.new_label()
+        outer_fin, outer_h, outer_path = list(self.fin), self.in_handler, self.path
+
+        def leave():
+            self.fin, self.in_handler = list(outer_fin), outer_h
+            self.final(finalbody)
+            self.emit('jmp', end)
         self.emit('tryEnter', h)
-        self.fin.append(finalbody)
-        self.block(body)
-        self.emit('tryLeave')
-        self.block(orelse)
-        self.fin.pop()
-        self.final(finalbody)
-        self.emit('jmp', end)
+        self.fin = outer_fin + [finalbody]
+
+        def normal_exit():
+            self.emit('tryLeave')
+            self.block(orelse, leave)
+        self.block(body, normal_exit)
         self.place(h)
-        old = self.path
         self.path = 'handler'
         if handlers:
             if len(handlers) > 1:
                 self.notes.append('several except clauses at line %d: only the first is modelled' % lineno)
                 self.emit('opaque')
-            hb = handlers[0].body
-            self.fin.append(finalbody)
-            self.in_handler += 1
-            self.block(hb)
-            self.in_handler -= 1
-            self.fin.pop()
-            if not (hb and isinstance(hb[-1], (ast.Return, ast.Raise))):
-                self.final(finalbody)
+            self.fin, self.in_handler = outer_fin + [finalbody], outer_h + 1
+            self.block(handlers[0].body, leave)
         else:
+            self.fin, self.in_handler = list(outer_fin), outer_h
             self.final(finalbody)
             self.emit('reraise')
-        self.path = old
+        self.fin, self.in_handler, self.path = list(outer_fin), outer_h, outer_path
         self.place(end)
+        k()
 
-    def if_(self, s):
+    def if_(self, s, k):
         t = s.test
-        kind = None
         if isinstance(t, ast.Compare) and len(t.ops) == 1 and isinstance(t.comparators[0], ast.Constant) \
                 and t.comparators[0].value is None and isinstance(t.ops[0], (ast.Is, ast.IsNot)):
             kind = 'isNone' if isinstance(t.ops[0], ast.Is) else 'isNotNone'
             x = t.left
             if seg(x).endswith('.wsdl11'):
                 # configuration test (`self.doc.wsdl11 is None`): a WSDL-capable application is assumed
-                return self.block(s.orelse if kind == 'isNone' else s.body)
+                return self.block(s.orelse if kind == 'isNone' else s.body, k)
+            if isinstance(x, ast.Name) and x.id in self.consts:
+                # a value returned by an inlined helper: decided per return site
+                is_none = self.consts[x.id] == 'none'
+                return self.block(s.body if is_none == (kind == 'isNone') else s.orelse, k)
             c = self.cls(x)
             if c is not None and c[0] != 'pub':
                 if c[0] == 'cache':
@@ -286,20 +375,17 @@ class SkelExtractor:
                     r = 't'
                 else:
                     r = c[1]
-                l_else, l_end = self.new_label(), self.new_label()
+                l_else, join = self.new_label(), self.new_label()
                 self.emit('jmpIfSome' if kind == 'isNone' else 'jmpIfNone', r, l_else)
-                self.block(s.body)
-                if s.orelse:
-                    self.emit('jmp', l_end)
-                    self.place(l_else)
-                    self.block(s.orelse)
-                    self.place(l_end)
-                else:
-                    self.place(l_else)
-                return
+                self.block(s.body, lambda: self.emit('jmp', join))
+                self.place(l_else)
+                self.block(s.orelse, lambda: self.emit('jmp', join))
+                self.place(join)
+                return k()
         if self.touches(s.test) or any(self.touches(b) for b in s.body + s.orelse):
             self.notes.append('unmodelled condition around shared accesses at line %d: %s' % (s.lineno, seg(t)[:80]))
             self.emit('opaque')
+        return k()
 
     def assign(self, s):
         v = self.cls(s.value)
@@ -314,13 +400,18 @@ class SkelExtractor:
             for t, c in zip(s.targets, tg):
                 if c and c[0] == 'name':
                     self.docnames.discard(c[1])
+                    self.consts.pop(c[1], None)
                 elif c is not None or self.touches(t):
-                    self.notes.append('document place assigned from an unmodelled value at line %d' % s.lineno)
+                    if isinstance(s.value, ast.Constant) and s.value.value is None and c and c[0] == 'cache':
+                        self.notes.append('None is stored into the cache at line %d' % s.lineno)
+                    else:
+                        self.notes.append('document place assigned from an unmodelled value at line %d' % s.lineno)
                     self.emit('opaque')
             return
         if all(c is not None and c[0] == 'name' for c in tg) and v[0] == 'reg':
             for c in tg:
                 self.docnames.add(c[1])
+                self.consts.pop(c[1], None)
             if v[1] != 't':
                 self.emit('mov', 't', v[1])
             return
@@ -331,6 +422,7 @@ class SkelExtractor:
         for c in tg:
             if c[0] == 'name':
                 self.docnames.add(c[1])
+                self.consts.pop(c[1], None)
         if v[0] in ('cache', 'pub'):
             load = 'loadCache' if v[0] == 'cache' else 'loadPub'
             lm = ('line', self.cur, s.lineno) if v[0] == 'cache' else ('calleeline', self.cur, s.lineno)
@@ -353,34 +445,135 @@ class SkelExtractor:
                 self.emit('storeCache', src, marker=after)
                 after = None if after and after[0] == 'return' else after
 
-    def result(self):
-        # resolve labels; normalise: drop jumps to the next instruction, `mov x y; respond x` = `respond y`
-        ins, labels = self.ins, dict(self.labels)
+    # ------------------------------------------------------------------ normal form
+    @staticmethod
+    def _live(nodes, target_index, start, reg):
+        """is register `reg` read on some path from instruction `start` before it is written"""
+        seen, todo = set(), [start]
+        while todo:
+            i = todo.pop()
+            if i in seen or i >= len(nodes):
+                continue
+            seen.add(i)
+            nd = nodes[i]
+            op, args = nd['op'], nd['args']
+            reads = {'storeCache': args[:1], 'mov': args[1:2], 'jmpIfSome': args[:1], 'jmpIfNone': args[:1],
+                     'respond': args[:1]}.get(op, [])
+            if reg in reads:
+                return True
+            writes = {'loadCache': args[:1], 'loadPub': args[:1], 'mov': args[:1]}.get(op, [])
+            if reg in writes:
+                continue
+            if op in ('jmp', 'jmpIfSome', 'jmpIfNone', 'tryEnter'):
+                todo.append(target_index(args[-1]))
+            if op != 'jmp' and op not in SkelExtractor.TERMINAL:
+                todo.append(i + 1)
+        return False
 
-        def delete(i):
-            del ins[i]
-            for k in labels:
-                if labels[k] > i:
-                    labels[k] -= 1
+    def result(self):
+        JUMPS = ('jmp', 'jmpIfSome', 'jmpIfNone', 'tryEnter')
+        # instructions with their own labels (a label may sit at the end = halt)
+        n = len(self.ins)
+        at = {}
+        for lab, idx in self.labels.items():
+            at.setdefault(idx, []).append(lab)
+        nodes = [{'op': op, 'args': list(args), 'mk': mk, 'labs': at.get(i, [])} for i, (op, args, mk) in enumerate(self.ins)]
+        end_labs = at.get(n, [])
+
+        def target_index(lab):
+            if lab in end_labs:
+                return len(nodes)
+            for i, nd in enumerate(nodes):
+                if lab in nd['labs']:
+                    return i
+            return len(nodes)
         changed = True
         while changed:
             changed = False
-            for i, (op, args, mk) in enumerate(ins):
-                if op in ('jmpIfSome', 'jmpIfNone', 'jmp') and labels.get(args[-1]) == i + 1:
-                    delete(i)
+            # thread jumps through unconditional jumps; a jump to a terminal instruction is that instruction
+            for nd in nodes:
+                if nd['op'] in JUMPS:
+                    ti = target_index(nd['args'][-1])
+                    if ti < len(nodes) and nodes[ti]['op'] == 'jmp' and nodes[ti] is not nd:
+                        if nd['args'][-1] != nodes[ti]['args'][-1]:
+                            nd['args'][-1] = nodes[ti]['args'][-1]
+                            changed = True
+                    elif nd['op'] == 'jmp' and ti < len(nodes) and nodes[ti]['op'] in self.TERMINAL:
+                        nd['op'], nd['args'], nd['mk'] = nodes[ti]['op'], list(nodes[ti]['args']), None
+                        changed = True
+            # `mov x y; respond x` = `respond y`;  a private mov goes before an independent adjacent storeCache
+            for i in range(len(nodes) - 1):
+                a, b = nodes[i], nodes[i + 1]
+                if b['labs']:
+                    continue
+                if a['op'] == 'mov' and b['op'] == 'respond' and b['args'] == [a['args'][0]]:
+                    b['args'] = [a['args'][1]]
+                    b['labs'] = a['labs']
+                    del nodes[i]
                     changed = True
                     break
-                if op == 'mov' and i + 1 < len(ins) and ins[i + 1][0] == 'respond' and ins[i + 1][1] == [args[0]] \
-                        and (i + 1) not in labels.values():
-                    ins[i + 1][1] = [args[1]]
-                    delete(i)
+                if a['op'] == 'storeCache' and b['op'] == 'mov' and b['args'][0] != a['args'][0]:
+                    b['labs'], a['labs'] = a['labs'], []
+                    nodes[i], nodes[i + 1] = b, a
                     changed = True
                     break
+            if changed:
+                continue
+            # `load t; mov w t` with t dead afterwards = `load w`  (a local name used only to pass the value on)
+            for i in range(len(nodes) - 1):
+                a, b = nodes[i], nodes[i + 1]
+                if a['op'] in ('loadCache', 'loadPub') and b['op'] == 'mov' and not b['labs'] and \
+                        b['args'][1] == a['args'][0] and b['args'][0] != a['args'][0] and \
+                        not self._live(nodes, target_index, i + 2, a['args'][0]):
+                    a['args'] = [b['args'][0]]
+                    del nodes[i + 1]
+                    changed = True
+                    break
+            if changed:
+                continue
+            # jumps to the next instruction
+            for i, nd in enumerate(nodes):
+                if nd['op'] in ('jmp', 'jmpIfSome', 'jmpIfNone') and target_index(nd['args'][-1]) == i + 1:
+                    if i + 1 < len(nodes):
+                        nodes[i + 1]['labs'] = nodes[i + 1]['labs'] + nd['labs']
+                    else:
+                        end_labs += nd['labs']
+                    del nodes[i]
+                    changed = True
+                    break
+            if changed:
+                continue
+            # unreachable code
+            reach, todo = set(), [0]
+            while todo:
+                i = todo.pop()
+                if i in reach or i >= len(nodes):
+                    continue
+                reach.add(i)
+                nd = nodes[i]
+                if nd['op'] in JUMPS:
+                    todo.append(target_index(nd['args'][-1]))
+                if nd['op'] != 'jmp' and nd['op'] not in self.TERMINAL:
+                    todo.append(i + 1)
+            if len(reach) < len(nodes):
+                carry = []
+                new = []
+                for i, nd in enumerate(nodes):
+                    if i in reach:
+                        nd['labs'] = nd['labs'] + carry
+                        carry = []
+                        new.append(nd)
+                    else:
+                        carry += nd['labs']
+                end_labs += carry
+                nodes = new
+                changed = True
         out, markers = [], []
-        for op, args, mk in ins:
-            a = [str(labels[x]) if isinstance(x, str) and x in labels else str(x) for x in args]
-            out.append(' '.join([op] + a))
-            markers.append(mk)
+        for nd in nodes:
+            args = [str(target_index(a)) if (nd['op'] in JUMPS and j == len(nd['args']) - 1) else str(a)
+                    for j, a in enumerate(nd['args'])]
+            out.append(' '.join([nd['op']] + args))
+            markers.append(nd['mk'])
         return out, markers
 
 
@@ -1704,7 +1897,7 @@ LEAN_INSTR = {'loadCache': '.loadCache .%s', 'loadPub': '.loadPub .%s', 'storeCa
 
 EXPECTED = ['loadCache t', 'jmpIfSome t 5', 'loadPub t', 'jmpIfNone t 5', 'storeCache t', 'loadCache w', 'jmpIfSome w 22',
             'tryEnter 20', 'acquire', 'loadCache w', 'jmpIfSome w 17', 'buildBegin', 'buildPorts', 'buildPublish', 'loadPub t',
-            'mov w t', 'storeCache t', 'tryLeave', 'release', 'jmp 22', 'release', 'respondErr', 'respond w']
+            'mov w t', 'storeCache t', 'tryLeave', 'release', 'respond w', 'release', 'respondErr', 'respond w']
 
 
 def lean_instr(s):
